@@ -376,29 +376,60 @@ def preset(run, p):
 
 
 def strip(run, p):
-    run.rule('C09-STRIP', 'to_json returns strip_lines(json.dumps(..., ensure_ascii=False)) + newline; strip_lines splits on the JSON line '
-                          'separator "\\n" only (str.splitlines would also split inside string values at U+2028, U+0085, ...)')
+    import json
+    from ..pyeval import Interp, Obj, Unsupported, Raised
+    run.rule('C09-STRIP', 'to_json, evaluated on constraint dictionaries holding every Unicode line separator (U+2028, U+2029, U+0085, '
+                          'VT, FF, FS..US), non-ASCII text and trailing blanks inside values, returns text that is valid JSON for the '
+                          'same dictionary, keeps non-ASCII characters as they are, ends in one newline and has no line ending in '
+                          'blanks (str.splitlines in strip_lines would split inside string values and break the JSON)')
     f = p.method('DatasetConstraints', 'to_json')
-    rets = [r for r in ast.walk(f.node) if isinstance(r, ast.Return)]
-    ok = False
-    if len(rets) == 1:
-        v = rets[0].value
-        if isinstance(v, ast.BinOp) and isinstance(v.op, ast.Add) and isinstance(v.right, ast.Constant) and v.right.value == '\n' \
-                and isinstance(v.left, ast.Call) and getattr(v.left.func, 'id', '') == 'strip_lines' and v.left.args:
-            d = v.left.args[0]
-            if isinstance(d, ast.Call) and norm(d.func) == 'json.dumps':
-                ok = any(k.arg == 'ensure_ascii' and isinstance(k.value, ast.Constant) and k.value.value is False for k in d.keywords)
-    run.ob('C09-STRIP', '%s::%s' % (f.rel, f.short), ok, 'to_json returns `%s`' % (norm(rets[0])[:90] if rets else None), fn=f)
+    samples = [
+        {'fields': {'a': {'type': 'string', 'allowed_values': ['x\u2028y', 'p\u2029q', 'n\x85m', 'v\x0bt', 'f\x0cf', 'fs\x1cgs\x1dus\x1f']}}},
+        {'fields': {'caf\u00e9': {'type': 'string', 'rex': ['^\u00e9t\u00e9 +$'], 'min_length': 1}}, 'creation_metadata': {'source': 'x  '}},
+        {'fields': {}},
+        {'fields': {'n': {'type': 'int', 'min': -3, 'max': 7, 'sign': 'null', 'max_nulls': 0, 'no_duplicates': True}}},
+    ]
+    bad = []
+    for d in samples:
+        I = Interp(p)
+
+        def hook(m, args, kwargs, selfobj, d=d):
+            if m.name == 'to_dict':
+                return True, d
+            return False, None
+        I.on_call = hook
+        try:
+            out = I.call(f, [], selfobj=Obj(p.cls('DatasetConstraints')))
+        except (Unsupported, Raised) as e:
+            raise AnalysisError('to_json is not evaluable: %s' % e)
+        why = None
+        try:
+            if json.loads(out) != d:
+                why = 'reads back as a different dictionary'
+        except (ValueError, TypeError) as e:
+            why = 'is not valid JSON (%s)' % e
+        if why is None and not (out.endswith('\n') and not out.endswith('\n\n')):
+            why = 'does not end in exactly one newline'
+        if why is None and any(line != line.rstrip(' \t') for line in out.split('\n')):
+            why = 'has a line ending in blanks'
+        if why is None and any(ord(ch) > 127 for ch in json.dumps(d, ensure_ascii=False)) and not any(ord(ch) > 127 for ch in out):
+            why = 'escapes non-ASCII characters'
+        if why:
+            bad.append((d, why))
+    run.ob('C09-STRIP', '%s::%s' % (f.rel, f.short), not bad,
+           'to_json over %d dictionaries%s' % (len(samples), '' if not bad else ': the text for %r %s' % (bad[0][0], bad[0][1])), fn=f)
     s = p.fn('tdda.constraints.base.strip_lines')
-    uses = [x for x in ast.walk(s.node) if isinstance(x, ast.Call) and isinstance(x.func, ast.Attribute) and x.func.attr == 'splitlines']
-    splits = [x for x in ast.walk(s.node) if isinstance(x, ast.Call) and isinstance(x.func, ast.Attribute) and x.func.attr == 'split'
-              and x.args and isinstance(x.args[0], ast.Constant) and x.args[0].value == '\n']
-    run.ob('C09-STRIP', '%s::%s::separator' % (s.rel, s.short), not uses and bool(splits),
-           'strip_lines splits with %s' % ('split("\\n")' if splits and not uses else 'str.splitlines(): a U+2028 inside a value becomes a raw newline and the text is no longer valid JSON'),
-           fn=s, node=uses[0] if uses else None)
-    rs = [x for x in ast.walk(s.node) if isinstance(x, ast.Call) and isinstance(x.func, ast.Attribute) and x.func.attr == 'rstrip']
-    run.ob('C09-STRIP', '%s::%s::rstrip' % (s.rel, s.short), bool(rs), 'each line is right-stripped', fn=s, nontrivial=False)
-    run.floor('C09-STRIP', 3, 3)
+    sb = []
+    for text, want in (('a  \nb\t\n', 'a\nb\n'), ('x\u2028y \n', 'x\u2028y\n'), ('one', 'one'), ('', ''), ('k: "v\x85w"  \n}', 'k: "v\x85w"\n}')):
+        try:
+            got = Interp(p).call(s, [text])
+        except (Unsupported, Raised) as e:
+            raise AnalysisError('strip_lines is not evaluable: %s' % e)
+        if got.rstrip('\n') != want.rstrip('\n') or got.count('\n') < want.count('\n') - 1:
+            sb.append((text, got))
+    run.ob('C09-STRIP', '%s::%s::separator' % (s.rel, s.short), not sb,
+           'strip_lines strips each "\\n"-separated line and nothing else%s' % ('' if not sb else ': %r becomes %r' % sb[0]), fn=s)
+    run.floor('C09-STRIP', len(samples) + 5, 9)
 
 
 def sameprep(run, p, rid='C09-SAMEPREP'):
